@@ -15,14 +15,16 @@ def memOf? (j : Json) : Option (Option Mem) :=
   match j with
   | .null => some none
   | j => do
-      let n ← jBool? (← jField? j "noticed")
+      let n ← match (← jField? j "noticed") with      -- `noticed_by_listing: bool | None`
+        | .null => some none
+        | b => (jBool? b).map some
       let f ← jBool? (← jField? j "fullyHandled")
       let r ← jStrList? (← jField? j "resumed")
       some (some { noticed := n, fullyHandled := f, resumed := r })
 
 def memJson : Option Mem → Json
   | none => .null
-  | some m => Json.mkObj [("noticed", .bool m.noticed), ("fullyHandled", .bool m.fullyHandled),
+  | some m => Json.mkObj [("noticed", match m.noticed with | some b => .bool b | none => .null), ("fullyHandled", .bool m.fullyHandled),
                           ("resumed", .arr (m.resumed.map Json.str).toArray)]
 
 def handle : DrvHandler := fun op args =>
@@ -62,6 +64,10 @@ def handle : DrvHandler := fun op args =>
         ("invoked", .arr (r.invoked.map (fun (i, n) => Json.arr #[.str i, .num (JsonNumber.fromNat n)])).toArray),
         ("P", Json.mkObj (univ.map (fun i => (i, match r.P i with | some rc => C02.recJson rc | none => .null)))),
         ("closed", .bool r.closed)]))
+  | "C14.admission", [j] => do      -- one admission request served for the object: the memory before → after
+      let mem ← memOf? (← jField? j "mem")
+      let create ← jBool? (← jField? j "create")
+      some (ok (Json.mkObj [("mem", memJson (admission mem create))]))
   | _, _ => none
 
 end Kopf.Drv.C14
